@@ -1047,8 +1047,11 @@ func (s *Stage) finalize(file *finalFile) {
 	if cached := s.fromCache(file.path); cached != nil && cached.hash != file.hash {
 		// A newer version of the file was received and validated while this
 		// one was waiting for its predecessor.  What is staged under the name
-		// now is that version, which gets finalized (and logged) as itself.
+		// now is that version, which gets finalized (and logged) as itself:
+		// the wait list keeps one record per path, so this may have been the
+		// only thing that would ever bring it here.
 		s.logDebug("Ignoring replaced (final):", file.name)
+		go s.finalizeQueue(cached)
 		return
 	}
 
